@@ -279,6 +279,7 @@ func checkC03(p *Program, r *Report) {
 	r.Explanation += " (align) wherever the position at which the builder cuts labels (bmtree.PathsOf/PathOf) is aligned by a constant mask, the mask clears at least log2(w) low bits for every label word size w that can reach the same call together with it (leaves of position and word size paired per phi edge and helper return): a 257-bit node is cut at whole bytes, as the readers address it."
 	checkCutAlignment(p, r, "C03.align")
 	checkCodecsAs(p, r, "C03")
+	checkCapacity(p, r, "C03.capacity")
 }
 
 // dependsOnSessionField: v is computed (within a few steps) from a load of the given session field.
